@@ -290,6 +290,46 @@ def run(ctx):
         if not ok:
             ctx.violation("reference-datagram-rejected:" + w[0], "a datagram produced by the protocol reference is not decoded to the same fields / signature by the real code",
                           {"input": rp, "datagram": data_hex, "real": res_dec_safe(ps)})
+    # ---- reference-produced packets aggregated in one datagram (a conforming peer may do that; the library never does): each
+    # must decode to the same fields, and carry the same signature, as when it travels alone
+    groups = {}
+    for line, data_hex, rp in emitted:
+        w = line.split(" ")
+        cfgk = (w[0],) + (tuple(w[1:4]) if w[0] == "v0emit" else ()) + (rp["access_key"],)
+        groups.setdefault(cfgk, []).append((line, data_hex, rp))
+    nagg = 0
+    for cfgk, items in sorted(groups.items(), key=lambda kv: repr(kv[0])):
+        if len(items) < 2: continue
+        for rep in range(12 if quick else 120):
+            k = ctx.rng.choice([2, 2, 3, 4])
+            pick = [ctx.rng.choice(items) for _ in range(k)]
+            if cfgk[0] == "v0emit":
+                c = prudp.PRUDPMessageV0(make_settings(sv=int(cfgk[1]), cv=int(cfgk[2]), fv=int(cfgk[3]), key=cfgk[-1]))
+            elif cfgk[0] == "v1emit":
+                c = prudp.PRUDPMessageV1(make_settings(key=cfgk[-1]))
+            else:
+                c = prudp.PRUDPLiteMessage(make_settings(transport=2, key=cfgk[-1]))
+            singles = []
+            usable = True
+            for i, (line, data_hex, rp) in enumerate(pick):
+                one = safe(c.decode, unhx(data_hex)) if cfgk[0] != "liteemit" else safe(prudp.PRUDPLiteMessage(make_settings(transport=2, key=cfgk[-1])).decode, unhx(data_hex))
+                if isinstance(one, Exception) or len(one) != 1: usable = False; break
+                # v0: only a packet that states its size can be followed by another one
+                if cfgk[0] == "v0emit" and i < k - 1 and not one[0].flags & 8: usable = False; break
+                singles.append(fmt_packet(one[0]))
+            if not usable: continue
+            data = b"".join(unhx(d) for _, d, _ in pick)
+            dec = prudp.PRUDPLiteMessage(make_settings(transport=2, key=cfgk[-1])) if cfgk[0] == "liteemit" else c
+            got = safe(dec.decode, data)
+            nagg += 1
+            ok = not isinstance(got, Exception) and [fmt_packet(p) for p in got] == singles
+            ctx.case(key=("aggregate", hash(data)), nontrivial=True, tag="reverse-aggregated:" + cfgk[0] + (":accepted" if ok else ":REJECTED"))
+            if not ok:
+                ctx.violation("reference-datagram-rejected:aggregated:" + cfgk[0],
+                              "%d packets produced by the protocol reference, aggregated in one datagram, are not decoded by the real code as they are one by one (%s)"
+                              % (k, repr(got)[:120] if isinstance(got, Exception) else "%d packets, fields differ" % len(got)),
+                              {"config": list(cfgk), "datagrams": [d for _, d, _ in pick], "real": res_dec_safe(got)})
+    ctx.extra["reverse_direction_aggregated_datagrams"] = nagg
     # ---- whole sessions: every datagram the two real endpoints emit vs the reference endpoint (the Lean L1 model, whose signature
     # and key functions are proved equal to the reference functions used above: NxProps/C08 l1_*), including everything emitted
     # after the k-th datagram of the session was lost once (retransmitted SYN / CONNECT and their acknowledgements with the
